@@ -1,11 +1,8 @@
 SPECIFICATION Spec
-CONSTANT WithLinger = FALSE
+CONSTANT WithLinger = TRUE
 CONSTANT Fix_HardExit = TRUE
 CONSTANT KillOnTimeout = TRUE
-INVARIANT WorkerGoneInTime
-INVARIANT ExpectedRung
 INVARIANT TerminatePrompt
 INVARIANT NoChildLeft
-PROPERTY WorkerEventuallyGone
 PROPERTY TerminateReturns
 CHECK_DEADLOCK FALSE
